@@ -930,15 +930,31 @@ func qGenQuery0(rt *rapid.T, tables []*qTable) qQuery {
 		ng := rapid.IntRange(1, 2).Draw(rt, "ngroup")
 		var groups, sel []string
 		used := map[string]bool{}
+		hasStrGroup := false
 		for i := 0; i < ng; i++ {
 			r := refs[rapid.IntRange(0, len(refs)-1).Draw(rt, "groupcol")]
 			if used[r.Expr] {
 				continue
 			}
+			if k := r.col().Kind; k.isString() || k == qkVarbin {
+				if hasStrGroup {
+					// grammar exclusion: go-mysql-server's grouping key concatenates the group values, so
+					// ('', ' ') and (' ', '') fall into one group in both engines
+					qExcludedLits["two_string_group_columns"]++
+					continue
+				}
+				hasStrGroup = true
+			}
 			used[r.Expr] = true
 			groups = append(groups, r.Expr)
 			if !r.col().Kind.caseInsensitive() {
 				sel = append(sel, r.Expr)
+			}
+		}
+		if len(groups) == 0 {
+			groups = append(groups, refs[0].Expr)
+			if !refs[0].col().Kind.caseInsensitive() {
+				sel = append(sel, refs[0].Expr)
 			}
 		}
 		sel = append(sel, "COUNT(*)")
@@ -1049,6 +1065,9 @@ func qGenJoin(rt *rapid.T, tables []*qTable, three bool) (qQuery, bool) {
 	if p.l.col().Kind == qkDec {
 		shape += " decimal_join_key"
 	}
+	if p.l.col().Kind.caseInsensitive() || p.r.col().Kind.caseInsensitive() {
+		shape += " ci_join_key"
+	}
 	switch rapid.IntRange(0, 5).Draw(rt, "join.extra") {
 	case 0:
 		p2 := rapid.SampledFrom(pairs).Draw(rt, "join.on2")
@@ -1058,6 +1077,7 @@ func qGenJoin(rt *rapid.T, tables []*qTable, three bool) (qQuery, bool) {
 		}
 	case 1:
 		on += " AND " + qGenAtom(rt, rb)
+		shape += " literal_in_on"
 	}
 	kind := rapid.SampledFrom([]string{"INNER JOIN", "INNER JOIN", "LEFT JOIN"}).Draw(rt, "join.kind")
 	from := fmt.Sprintf("{T:%s} a %s {T:%s} b ON %s", ta.Name, kind, tb.Name, on)
@@ -1074,6 +1094,9 @@ func qGenJoin(rt *rapid.T, tables []*qTable, three bool) (qQuery, bool) {
 			from += fmt.Sprintf(" %s {T:%s} c ON %s = %s", kind3, tc.Name, p3.l.Expr, p3.r.Expr)
 			if p3.l.col().Kind == qkDec {
 				shape += " decimal_join_key"
+			}
+			if (p3.l.col().Kind.caseInsensitive() || p3.r.col().Kind.caseInsensitive()) && !strings.Contains(shape, "ci_join_key") {
+				shape += " ci_join_key"
 			}
 			all = append(all, rc...)
 			used = append(used, tc)
